@@ -182,6 +182,25 @@ theorem C05_sql_text_depends_on_active_prefetch_context :
   ⟨C05_field_key_needed _ _ .active_prefetch_context (by decide) (by decide),
    C05_field_key_needed _ _ .active_prefetch_context (by decide) (by decide)⟩
 
+/-! ### the same, with the reads of each miss branch REGENERATED from the source -/
+
+/-- `_batchload_sql_cache_`, `_insert_sql_cache_`, `_update_sql_cache_`, `_delete_sql_cache_`: every input the miss branch reads (the free
+    names and attribute paths of the block as they are in core.py now — `Gen.CacheKeys.*Reads`) is a component of the key as coded
+    now; hence every history answers cold, whatever the statement builder computes from what it reads -/
+theorem C05_entity_sql_caches_from_source {V : Type} (F : List Val → V) (hist : List (Op Env (List Val))) :
+    run (fieldMemo CacheKeys.batchloadKey CacheKeys.batchloadReads F) [] hist = hist.map (cold (fieldMemo CacheKeys.batchloadKey CacheKeys.batchloadReads F)) ∧
+    run (fieldMemo CacheKeys.insertSqlKey CacheKeys.insertSqlReads F) [] hist = hist.map (cold (fieldMemo CacheKeys.insertSqlKey CacheKeys.insertSqlReads F)) ∧
+    run (fieldMemo CacheKeys.updateSqlKey CacheKeys.updateSqlReads F) [] hist = hist.map (cold (fieldMemo CacheKeys.updateSqlKey CacheKeys.updateSqlReads F)) ∧
+    run (fieldMemo CacheKeys.deleteSqlKey CacheKeys.deleteSqlReads F) [] hist = hist.map (cold (fieldMemo CacheKeys.deleteSqlKey CacheKeys.deleteSqlReads F)) :=
+  ⟨field_history _ _ (by decide) F hist, field_history _ _ (by decide) F hist, field_history _ _ (by decide) F hist, field_history _ _ (by decide) F hist⟩
+
+/-- `_find_sql_cache_` and `_constructed_sql_cache`: the only input a miss branch reads that is not in its key is the ACTIVE prefetch
+    context (the select list's lazy columns); everything else it reads is a key component -/
+theorem C05_find_and_constructed_reads_from_source :
+    (∀ d ∈ CacheKeys.findReads, d ∈ CacheKeys.findKey ∨ d = .active_prefetch_context) ∧
+    (∀ d ∈ CacheKeys.constructedSqlReads, d ∈ CacheKeys.constructedSqlKey ∨ d = .active_prefetch_context) ∧
+    (∀ d ∈ CacheKeys.findReads, d ∈ findTextDeps) ∧ (∀ d ∈ CacheKeys.constructedSqlReads, d ∈ constructedTextDeps) := by decide
+
 /-! ### `extractors_cache` -/
 
 /-- `create_extractors` is transparent as soon as its key carries the classification of the called names in the caller's
